@@ -8,18 +8,17 @@ COMMON_NOTE = ('Trusted: Lean 4.33 kernel + axioms propext/Classical.choice/Quot
                'the translator harness/extract.py; the correspondence check (concretisation, canonicalisation, sampled agreement per model path); '
                'CPython/stdlib semantics are modelled and exercised against the live interpreter, not verified. ')
 
-CHECKS = {
-    'C15': dict(
-        text=('Lean theorems retry_spec / retry_calls_min / retry_calls_all_listed / retry_result_is_last / retry_sleeps_between / '
-              'retry_foreign_not_retried: for every attempts : Int and every infinite outcome script the model of retry_func equals the contract '
-              '(number of invocations min(k+1, max(attempts,1)), last outcome handed to the caller, sleeps strictly between invocations). The loop '
-              'shape (initial counter, guard, increment, sleep position, final call, except clause, argument forwarding) is re-translated from '
-              'the source on every run, so the theorems are re-proved about the current code; an exhaustive correspondence run (all outcome '
-              'sequences up to the tier length x attempts -1..6 x exception specs x both entry points) ties the model to the implementation.'),
-        note='Outcomes of the retried function are scripted; time.sleep/logger patched in the harness process; `except` matching is the interpreter\'s isinstance.',
-        technique='Lean 4 proof (induction on loop fuel) over a model regenerated by an AST translator + exhaustive differential correspondence',
-        design='§7 C15'),
-}
+def load_checks():
+    """harness/props/<ID>.manifest.json: {"text":…, "note":…, "technique":…, "design":…}"""
+    out = {}
+    d = os.path.join(ROOT, 'harness', 'props')
+    for f in sorted(os.listdir(d)):
+        if f.endswith('.manifest.json'):
+            out[f.split('.')[0]] = json.load(open(os.path.join(d, f)))
+    return out
+
+
+CHECKS = load_checks()
 
 NOT_YET = 'check not built yet in this round (work in progress; see DESIGN.md §11 for the planned Lean model)'
 
